@@ -43,23 +43,21 @@ type Pool struct {
 	ids      []*idp.Identity
 }
 
-type seededReader struct{ r *rand.Rand }
-
-func (s seededReader) Read(p []byte) (int, error) { return s.r.Read(p) }
-
 func putSeededKey(ctx context.Context, store ds.Datastore, id string, rnd *rand.Rand) (crypto.PrivKey, error) {
-	priv, _, err := crypto.GenerateSecp256k1Key(seededReader{rnd})
-	if err != nil {
-		return nil, err
+	// libp2p's GenerateSecp256k1Key ignores its reader, so derive the scalar ourselves:
+	// 32 seeded bytes are a valid secp256k1 private key with overwhelming probability
+	for {
+		raw := make([]byte, 32)
+		rnd.Read(raw)
+		priv, err := crypto.UnmarshalSecp256k1PrivateKey(raw)
+		if err != nil {
+			continue
+		}
+		if err := store.Put(ctx, ds.NewKey(id), raw); err != nil {
+			return nil, err
+		}
+		return priv, nil
 	}
-	raw, err := priv.Raw()
-	if err != nil {
-		return nil, err
-	}
-	if err := store.Put(ctx, ds.NewKey(id), raw); err != nil {
-		return nil, err
-	}
-	return priv, nil
 }
 
 // NewPool creates n identities deterministically from seed.
